@@ -245,7 +245,7 @@ func (e *Exec) load(s *State, obj, cell string, t types.Type) Val {
 // structural typing facts for composite values
 func (e *Exec) assumeTyped(s *State, v Val, t types.Type) {
 	c := e.c
-	if c.raw > 0 {
+	if c.raw > 0 && len(c.rawFacts) == 0 {
 		return
 	}
 	switch u := t.Underlying().(type) {
@@ -1285,4 +1285,83 @@ func (e *Exec) havocHeaps(s *State, kinds map[string]bool, allocs bool) {
 				r.A0, strings.Join(inf, " "), nh, h0, nh))
 		}
 	}
+}
+
+// privateAlloc: a heap-allocated local whose address never escapes: it is only
+// used through FieldAddr/IndexAddr chains ending in loads and stores. Returns
+// the set of address values derived from it (nil if it escapes).
+func privateAlloc(a *ssa.Alloc) map[ssa.Value]bool {
+	derived := map[ssa.Value]bool{a: true}
+	work := []ssa.Value{a}
+	for len(work) > 0 {
+		v := work[len(work)-1]
+		work = work[:len(work)-1]
+		refs := v.Referrers()
+		if refs == nil {
+			return nil
+		}
+		for _, r := range *refs {
+			switch x := r.(type) {
+			case *ssa.FieldAddr:
+				if x.X != v {
+					return nil
+				}
+				if !derived[x] {
+					derived[x] = true
+					work = append(work, x)
+				}
+			case *ssa.IndexAddr:
+				if x.X != v {
+					return nil
+				}
+				if !derived[x] {
+					derived[x] = true
+					work = append(work, x)
+				}
+			case *ssa.UnOp:
+				if x.Op != token.MUL {
+					return nil
+				}
+			case *ssa.Store:
+				if x.Val == v {
+					return nil // the address itself is stored somewhere
+				}
+			case *ssa.DebugRef:
+			default:
+				return nil
+			}
+		}
+	}
+	return derived
+}
+
+// unwrittenPrivate: private allocs, live on this path, that no instruction of the loop body writes.
+func (e *Exec) unwrittenPrivate(s *State, body map[*ssa.BasicBlock]bool) []*ssa.Alloc {
+	var out []*ssa.Alloc
+	for v, r := range s.regs {
+		a, ok := v.(*ssa.Alloc)
+		if !ok || r == nil || isScalarLocal(a) || a.Parent() != e.fn {
+			continue
+		}
+		if body[a.Block()] {
+			continue
+		}
+		derived := privateAlloc(a)
+		if derived == nil {
+			continue
+		}
+		written := false
+		for b := range body {
+			for _, in := range b.Instrs {
+				if st, ok := in.(*ssa.Store); ok && derived[st.Addr] {
+					written = true
+				}
+			}
+		}
+		if !written {
+			out = append(out, a)
+		}
+	}
+	sort.Slice(out, func(i, j int) bool { return out[i].Pos() < out[j].Pos() })
+	return out
 }
